@@ -346,6 +346,11 @@ Record lib := {
   html_unescape_fn : str -> str;    (* html.unescape *)
   unquote_fn : str -> str;          (* urllib.parse.unquote, argument contains '%' *)
   json_fn : val -> str;             (* json.dumps(left) *)
+  (* Two behaviours of the anchored code exist in two versions (before / after
+     the fix: patches proposed for C19); the harness probes which one the
+     implementation under test has.  The theorems hold for both. *)
+  fix_truncate_clamp : bool;        (* utils/text.py truncate_chars: val[:max(0, num - len(end))] *)
+  fix_rpartition_found : bool;      (* remove_last / replace_last test [found], not [before] *)
 }.
 
 (** * sequence_arg / _flatten   filter.py:140-153, 183-193 *)
@@ -385,6 +390,7 @@ Inductive lfilter :=
 | FSafe.
 
 Definition vstr (m : mstr) : val := VStr (fst m) (snd m).
+Definition is_nil (s : str) : bool := match s with [] => true | _ => false end.
 
 (** string.py:124-133: val.replace(to_liquid_string(seq), to_liquid_string(sub)[, 1]).
     Markup.replace escapes [new] (not [old]) and returns Markup. *)
@@ -438,10 +444,9 @@ Definition eval_filter (L : lib) (f : lfilter) (v : val) : res val :=
     | [] => Ok (vstr sv)                     (* ValueError: empty separator *)
     | sep => match rpartition (snd sv) sep with
              | Some (before, after) =>
-               match before with
-               | [] => Ok (vstr sv)
-               | _ => Ok (vstr (str_add (fst sv, before) (fst sv, after)))
-               end
+               if fix_rpartition_found L || negb (is_nil before)
+               then Ok (vstr (str_add (fst sv, before) (fst sv, after)))
+               else Ok (vstr sv)
              | None => Ok (vstr sv)
              end
     end
@@ -450,10 +455,9 @@ Definition eval_filter (L : lib) (f : lfilter) (v : val) : res val :=
     | [] => Ok (vstr (str_add sv (arg_tls b)))
     | sep => match rpartition (snd sv) sep with
              | Some (before, after) =>
-               match before with
-               | [] => Ok (vstr sv)
-               | _ => Ok (vstr (str_add (str_add (fst sv, before) (arg_tls b)) (fst sv, after)))
-               end
+               if fix_rpartition_found L || negb (is_nil before)
+               then Ok (vstr (str_add (str_add (fst sv, before) (arg_tls b)) (fst sv, after)))
+               else Ok (vstr sv)
              | None => Ok (vstr sv)
              end
     end
@@ -498,7 +502,10 @@ Definition eval_filter (L : lib) (f : lfilter) (v : val) : res val :=
     let en := snd (match e with Some a => arg_str a | None => (false, s_dots) end) in
     let s := snd sv in
     if (Z.of_nat (length s) <? num)%Z then Ok (vstr sv)
-    else Ok (VStr false (py_slice s 0 (Some (num - Z.of_nat (length en))%Z) ++ en))
+    else
+      let k := (num - Z.of_nat (length en))%Z in
+      let k' := if fix_truncate_clamp L then Z.max 0 k else k in
+      Ok (VStr false (py_slice s 0 (Some k') ++ en))
   | FTruncatewords n e =>                                                (* :282-313 *)
     let num0 := match n with Some z => z | None => 15%Z end in
     let num := if (num0 <=? 0)%Z then 1%Z else num0 in
